@@ -11,7 +11,14 @@ fn gen_data<T: Val>(spec: &Value, port: usize, rng: &mut Rng) -> Vec<T> {
     // explicit integer data (bits, bytes) given by the scenario
     if let Some(a) = spec["data"][port].as_array() {
         let mut ix = 0usize;
-        return a.iter().map(|v| { ix += 1; T::generate(&format!("lit:{}", v.as_i64().unwrap_or(0)), ix, rng) }).collect();
+        return a.iter().map(|v| {
+            ix += 1;
+            // [re, im] pairs give explicit complex samples
+            match v.as_array() {
+                Some(c) => T::generate(&format!("litc:{},{}", c[0].as_i64().unwrap_or(0), c[1].as_i64().unwrap_or(0)), ix, rng),
+                None => T::generate(&format!("lit:{}", v.as_i64().unwrap_or(0)), ix, rng),
+            }
+        }).collect();
     }
     let len = spec["lens"][port].as_u64().or(spec["len"].as_u64()).unwrap_or(0) as usize;
     let kind = spec["kinds"][port].as_str().or(spec["kind"].as_str()).unwrap_or("small").to_string();
@@ -85,6 +92,16 @@ fn pf(spec: &Value, name: &str, default: f64) -> Float {
 }
 fn pbits(spec: &Value, name: &str) -> Vec<u8> {
     spec["params"][name].as_array().map(|a| a.iter().map(|v| v.as_u64().unwrap() as u8).collect()).unwrap_or_else(|| vec![1, 0, 1])
+}
+/// taps as numbers (real) or [re, im] pairs
+fn pcomplex(spec: &Value, name: &str) -> Vec<Complex> {
+    match spec["params"][name].as_array() {
+        Some(a) => a.iter().map(|v| match v.as_array() {
+            Some(c) => Complex::new(c[0].as_f64().unwrap_or(0.0) as Float, c[1].as_f64().unwrap_or(0.0) as Float),
+            None => Complex::new(v.as_f64().unwrap_or(0.0) as Float, 0.0),
+        }).collect(),
+        None => vec![Complex::new(1.0, 0.0), Complex::new(2.0, 0.0), Complex::new(3.0, 0.0)],
+    }
 }
 fn pfloats(spec: &Value, name: &str, default: &[Float]) -> Vec<Float> {
     spec["params"][name].as_array().map(|a| a.iter().map(|v| v.as_f64().unwrap() as Float).collect()).unwrap_or_else(|| default.to_vec())
@@ -315,6 +332,12 @@ pub fn make(spec: &Value, rng: &mut Rng) -> Result<Rig, String> {
             let (b, o) = FirFilterBuilder::new(&taps).deci(pu(spec, "deci", 1) as usize).build(r);
             rig!(b, [i], [ring_out(o)])
         }
+        "FirFilter<Complex>" => {
+            let (i, r) = ring_in::<Complex>(spec, 0, rng);
+            let taps = pcomplex(spec, "taps");
+            let (b, o) = FirFilterBuilder::new(&taps).deci(pu(spec, "deci", 1) as usize).build(r);
+            rig!(b, [i], [ring_out(o)])
+        }
         "FftFilterFloat" => {
             let (i, r) = ring_in::<Float>(spec, 0, rng);
             let taps = pfloats(spec, "taps", &[1.0, 2.0, 3.0]);
@@ -323,7 +346,7 @@ pub fn make(spec: &Value, rng: &mut Rng) -> Result<Rig, String> {
         }
         "FftFilter" => {
             let (i, r) = ring_in::<Complex>(spec, 0, rng);
-            let taps: Vec<Complex> = pfloats(spec, "taps", &[1.0, 2.0, 3.0]).iter().map(|t| Complex::new(*t, 0.0)).collect();
+            let taps = pcomplex(spec, "taps");
             let (b, o) = FftFilter::new(r, &taps);
             rig!(b, [i], [ring_out(o)])
         }
